@@ -602,6 +602,9 @@ def feat_c08(tok):
         return "round:%s:%s" % (tok[2].split("-")[1] if "-p" in tok[2] else "", " ".join(args)) if 0 < d else None
     return None
 
+def c08_trace_params(exe):
+    return {"ptfile": os.path.join(os.path.dirname(exe), "instr", "points.txt")}
+
 PROPS["C08"] = dict(
     rule="C08F: Add on hand-set state words (8 boundary counts x 8 lo shapes x 26 deltas incl. +-MaxInt32(+1), MinInt64, MaxInt64, plus seeded "
          "valid / wrap-around / arbitrary 64-bit words) and Send on hand-set words with the word overwritten between two channel sends; "
@@ -624,9 +627,11 @@ PROPS["C08"] = dict(
     level_note="PARTIAL on the parenthetical 'every later call panics too' (false of the code: known finding F4). Trusted: hand-written models; "
                "CasterAbs.v abstracts the word to (count, armed) assuming counts far below MaxInt32 (overflow is covered at word level only); "
                "sync.RWMutex writer preference as modelled; protocol theorems are for unbuffered channels; harness logical clock and 2 s hang deadline.",
-    stages=[corr_stage("C08F", 20000, 20000, feature=feat_c08, seeds=2),
+    stages=[corr_stage("C08TRACE", 400, 4000, params=c08_trace_params, instrument=True,
+                       feature=lambda tok: " ".join(tok[5:62]) if tok[0] == "F" else None),
+            corr_stage("C08F", 20000, 20000, feature=feat_c08, seeds=2),
             corr_stage("C08K2", 6000, 6000, feature=feat_c08, seeds=3),
-            corr_stage("C08S", 12, 12, feature=feat_c08, instrument=True, shards=4, tparams={"points": 1000})],
+            corr_stage("C08S", 12, 12, feature=feat_c08, instrument=True, shards=4, params=c08_trace_params, tparams={"points": 1000})],
 )
 
 # ---------------------------------------------------------------------------------------------------------------
